@@ -32,7 +32,12 @@ TU = "magpylib/_src/display/traces_utility.py"
 # `count` times); kind "revert": reverse-apply a repository commit (regression of a repair).
 MUTANTS = {
     "C08": [
-        {"name": "revert_fix_style_materialisation", "kind": "revert", "commit": "ffe9f8a"},
+        {"name": "repr_reads_style_property_again", "kind": "sub", "file": "magpylib/_src/obj_classes/class_BaseDisplayRepr.py",
+         "old": "            name = get_style_label(self)\n",
+         "new": "            name = getattr(getattr(self, \"style\", None), \"label\", None)\n"},
+        {"name": "dataframe_ids_read_style_property_again", "kind": "sub", "file": FW,
+         "old": "            src_ids = [get_style_label(s) or f\"{s}\" for s in sources]\n",
+         "new": "            src_ids = [s.style.label if s.style.label else f\"{s}\" for s in sources]\n"},
         {"name": "revert_fix_finally", "kind": "revert", "commit": "f4e268a"},
         {"name": "reset_forgets_orientation", "kind": "sub", "file": FW,
          "old": "            obj._position = pos\n            obj._orientation = ori\n",
